@@ -75,7 +75,7 @@ def features(graph):
     return f
 
 
-EXCLUDING = ('shared_cand', 'switch_in_cand', 'switch_in_rec', 'oneof_in_rec', 'rec_overlap',
+EXCLUDING = ('shared_cand', 'switch_in_rec', 'oneof_in_rec', 'rec_overlap',
              'rec_outside_reader', 'rec_bad', 'rec_in_cand')
 
 
